@@ -140,6 +140,17 @@ def setMeta (st : Option Config) (murl : Option Bytes) (m : Meta) : Option Confi
 def configure (calls : List (Option Bytes × Meta)) : Option Config :=
   calls.foldl (fun st c => setMeta st c.1 c.2) none
 
+
+/-- Any configuration call that can follow `SetOAuthResourceMetadata`: the metadata setter itself,
+or one of `SetOAuthPkce` / `SetPrefix` / `SetAuthenticate`, which do not touch the challenge. -/
+inductive Setter
+  | metadata (murl : Option Bytes) (m : Meta)
+  | other
+
+def applySetter (st : Option Config) : Setter → Option Config
+  | .metadata u m => setMeta st u m
+  | .other => st
+
 /-- The WWW-Authenticate value put on 401 responses (`none`: header not set). -/
 def challenge (st : Option Config) : Option Bytes := st.map fun c => build c.url c.md
 
